@@ -87,7 +87,7 @@ SCHEMA_ORDER = {"t": ["c", "a", "b"], "u": ["d", "b", "c"], "v": ["e", "a", "d"]
 TW = {"t": "tt", "u": "tu", "v": "tv"}
 CW = {x: "c" + x for x in "abcde"}
 DBW, CATW = "dd", "kk"
-SCHEMES = ("lower", "upper", "mixed", "quoted", "nonascii", "quoted-mixed", "quoted-nonascii")
+SCHEMES = ("lower", "upper", "mixed", "quoted", "nonascii", "quoted-mixed", "quoted-nonascii", "quoted-mixed-nonascii")
 
 
 def spell(scheme, w):
@@ -106,6 +106,8 @@ def spell(scheme, w):
         return (w[0] + w[1:].upper(), True)
     if scheme == "quoted-nonascii":  # ... case-sensitive only through a non-ASCII upper-case letter
         return (w + "É", True)
+    if scheme == "quoted-mixed-nonascii":  # ASCII upper case AND a non-ASCII letter: case-sensitive also where only ASCII is folded
+        return (w[0].upper() + w[1:] + "é", True)
     if scheme == "nonascii2":
         return (w + "é", False)
     raise ValueError(scheme)
